@@ -501,6 +501,9 @@ type FlatMaskedIterator struct {
 func FlatMaskedIteratorFromDense(tt MaskedTensor) *FlatMaskedIterator {
 	it := new(FlatMaskedIterator)
 	runtime.SetFinalizer(it, destroyIterator)
+	if verifEnabled {
+		verifFinalizer(it)
+	}
 	it.FlatIterator = FlatIteratorFromDense(tt)
 	it.mask = tt.Mask()
 	return it
